@@ -197,14 +197,19 @@ func judge(h *history, deadlock string, panics []string) (*finding, stats) {
 			if next == nil || next.fetchEx() != nil || !next.OK {
 				continue
 			}
+			// … or by a call that was still in flight when the failing call started: with overlapping
+			// calls the failing call may have been working on a segment that had already been replaced
+			// (its download was not the key's latest), and the replacement's download is a legitimate
+			// source. A successful fetch whose call had RETURNED before the failing call was invoked
+			// cannot be: the failing call would have been served from it instead of fetching.
 			refetched := false
 			for _, g := range okFetch {
-				if a := g.fetchEx().At; a > fe.At && a < next.Ret {
+				if a := g.fetchEx().At; a < next.Ret && (a > fe.At || g.Ret > f.Inv) {
 					refetched = true
 				}
 			}
 			if !refetched {
-				vio("provenance", "failed-fetch-served-from-cache:next-call-did-not-reach-node", fmt.Sprintf("key %s: the fetch of call %d failed (%s); the next call %d (%s %s) returned without asking the node and nobody fetched the key in between", key, f.ID, fe.Ex.Fault.Kind, next.ID, next.Thread, next.Op))
+				vio("provenance", "failed-fetch-served-from-cache:next-call-did-not-reach-node", fmt.Sprintf("key %s: the fetch of call %d failed (%s); the next call %d (%s %s) returned without asking the node, and no successful fetch of the key happened after (or concurrently with) the failing call", key, f.ID, fe.Ex.Fault.Kind, next.ID, next.Thread, next.Op))
 			}
 		}
 		nWin := len(okFetch) // windows 1..nWin: window i = after successful fetch i, before fetch i+1; window 0 = before any fetch
